@@ -9,6 +9,7 @@ import AY.Driver.OpsC06
 import AY.Driver.OpsC19
 import AY.Driver.OpsC18
 import AY.Driver.OpsC12
+import AY.Driver.OpsC08
 open Lean AY AY.Codec
 
 def parseDocs (j : Json) : Except String (List (Env × Raw)) :=
@@ -104,6 +105,8 @@ def dispatch (j : Json) : Json :=
   | .ok (.str "c19") => AY.OpsC19.opC19 j
   | .ok (.str "c18") => AY.OpsC18.opC18 j
   | .ok (.str "c12") => AY.opC12 j
+  | .ok (.str "c08tokens") => AY.OpsC08.opC08 j
+  | .ok (.str "c08int") => AY.OpsC08.opC08Int j
   | _ => Json.mkObj [("bad", .str "unknown op")]
 
 partial def loop (h : IO.FS.Stream) (out : IO.FS.Stream) : IO Unit := do
